@@ -116,6 +116,7 @@ class Asm:
         self.base_node = None
         self._base = None
         self._base_busy = False
+        self.late_checks = []
         self.blocks = []
         self.outputs = []         # make_* directives in order: (kind, args, file path)
 
@@ -414,11 +415,19 @@ class Asm:
         if k == "skip":
             if node is self.base_node:
                 return 0
-            new = self.ev_int(node, s["e"])
-            if not -(1 << 16) < new < (1 << 16):
-                raise AsmError("value-out-of-bounds")
-            new %= 1 << 16
-            old = self.force(self.addr(node))
+            nv = X.ev(s["e"], self.env(node))
+            ov = self.addr(node)
+            if nv.k == ov.k and nv.k != 0 and self._base is None:
+                # the gap is a difference of two addresses: the base cancels out of it, so it is known before the base is
+                # (a skip between the labels of '.link K + end - start'); the target's own range is checked once the base is
+                if nv.c < ov.c:
+                    raise AsmError("value-out-of-bounds")
+                self.late_checks.append((nv, node))
+                return nv.c - ov.c
+            new = self.force(nv)
+            if not 0 <= new < (1 << 16):
+                raise AsmError("value-out-of-bounds")     # a negative target lies behind every address: a backward move
+            old = self.force(ov)
             if new < old:
                 raise AsmError("value-out-of-bounds")
             return new - old
@@ -581,6 +590,9 @@ class Asm:
             for blk in tops:
                 for n in blk.nodes:
                     self.emit(n, out, places)
+            for nv, node in self.late_checks:
+                if not 0 <= self.force(nv) < (1 << 16):
+                    raise Cycle("target of a gap whose size was needed for the base lies outside 16 bits")
             # every symbol is evaluated, used or not
             for inst in self.insts:
                 table = {}
